@@ -35,6 +35,7 @@ type nodeInst struct {
 	id     string
 	fields map[string]string
 	pos    string
+	opOrd  int // which successful match of the path produced the token stored as Operator (0: unknown)
 }
 
 type pathInfo struct {
@@ -72,6 +73,8 @@ func interpretPath(w []*Event) *pathInfo {
 	nodeCount := map[string]int{}
 	byObj := map[string]*nodeInst{}
 	prevInst := map[string]string{} // object name → id of the instance previously built at that site
+	nMatch := 0                     // successful matches so far
+	tokOrd := map[string]int{}      // token value name → ordinal of the match it is the token of
 	for _, e := range w {
 		switch e.Op {
 		case "call":
@@ -90,9 +93,13 @@ func interpretPath(w []*Event) *pathInfo {
 		case "match":
 			if e.Out == "true" {
 				pi.matches = append(pi.matches, e.KV["set"])
+				nMatch++
 			}
 		case "previous":
 			pi.desc[e.KV["res"]] = "prev:" + e.KV["how"]
+			if e.KV["how"] == "match" {
+				tokOrd[e.KV["res"]] = nMatch
+			}
 		case "peek":
 			pi.desc[e.KV["res"]] = "peek"
 		case "node":
@@ -134,6 +141,9 @@ func interpretPath(w []*Event) *pathInfo {
 					d = "list[]"
 				}
 				ni.fields[e.Args[1]] = d
+				if e.Args[1] == "Operator" {
+					ni.opOrd = tokOrd[v]
+				}
 			}
 		case "return":
 			pi.ok = e.Out == "ok" && e.KV["flagged"] != "T"
@@ -222,6 +232,8 @@ func extractLevel(pinfo *parserInfo, name string) (*ladderLevel, []string) {
 			}
 			if n.fields["Operator"] != "prev:match" {
 				problems = append(problems, fmt.Sprintf("iteration %d: Operator is %s, expected the operator token just matched", i+1, n.fields["Operator"]))
+			} else if n.opOrd != 0 && n.opOrd != i+1 {
+				problems = append(problems, fmt.Sprintf("iteration %d: Operator is the token of operator match #%d, not of the one just matched (a chain a == b != c would be built with the first operator twice)", i+1, n.opOrd))
 			}
 			if ln, ok := n.fields["Line"]; ok && ln != "prev:match.Line" {
 				problems = append(problems, "node Line is "+ln+", expected the operator's line")
